@@ -48,6 +48,9 @@ pub fn open_as_container_pack(reader: Reader) -> Result<ContainerPack> {
         Ok(pack_header) => (pack_header, Offset::zero()),
         Err(_) => {
             //Check at end
+            if reader.size() < Size::new(64) {
+                return Err(ErrorKind::NotAJbk.into());
+            }
             let mut buffer_reader = [0u8; 64];
             reader
                 .create_stream((reader.size() - Size::new(64)).into(), Size::new(64), false)?
